@@ -51,6 +51,7 @@ class RunSpawn(X.Scripted):
         self.ctor = dict(command=command, timeout=timeout, maxread=maxread, kw=sorted(kw))
         self.actions = []
         self.finals = []
+        self.eager_eof = bool(cfg.get('eager'))
         cfg['child'] = self
 
     def send(self, s):
@@ -75,6 +76,13 @@ class RunSpawn(X.Scripted):
     def close(self, force=True):
         self.closed = True
         self.exitstatus = RunSpawn.cfg.get('exit')
+
+    # (the rest of what run() may ask of a pexpect.spawn)
+    def eof(self):
+        return self.flag_eof
+
+    def isalive(self):
+        return not self.flag_eof and not self.closed
 
 
 class Holder(object):
@@ -130,7 +138,7 @@ def run_real(case):
     saved_time, saved_spawn = X.pexpect_expect.time, prun.spawn
     X.pexpect_expect.time = clock
     prun.spawn = RunSpawn
-    cfg = dict(script=case['script'], mode=case['mode'], clock=clock, exit=case.get('exit'))
+    cfg = dict(script=case['script'], mode=case['mode'], clock=clock, exit=case.get('exit'), eager=case.get('eager'))
     RunSpawn.cfg = cfg
     log = []
     out = dict()
@@ -278,6 +286,8 @@ def compare(case, out, mline):
 
 def oracle(case, out):
     """the property itself on the real run (independent of the Lean model)"""
+    if out['end'].startswith('EXC:'):
+        return 'run() raised %s' % out.get('exc')
     if out['end'] not in ('return',):
         return None          # fuel / TypeError: nothing returned to judge
     fin = out['finals']
@@ -336,6 +346,9 @@ def oracle(case, out):
             break
     if out['actions'] != exp:
         return 'responses %r, the event table prescribes %r' % (out['actions'], exp)
+    # run() stops at the end of the stream, at a timeout, or when a callback says so - not after an event that merely was answered
+    if last[0] == 'idx' and last[3] not in ('EOF', 'TIMEOUT') and 0 <= last[1] < nev and not (exp and exp[-1][0] == 'cbret' and exp[-1][3] == 'stop'):
+        return 'stopped after answering an event (%r) with %r still pending: neither EOF, nor a timeout, nor a callback returning true' % (last[3][:20], (out['pending'] or '')[:40])
     if case.get('wx') and out.get('status') != case.get('exit'):
         return 'exit status %r, child exited with %r' % (out.get('status'), case.get('exit'))
     return None
@@ -436,7 +449,8 @@ def rand_case(rng):
     L_ = max([len(p) for p in plants] + [1])
     return dict(mode=mode, events=(events if (events or rng.random() < 0.5) else None), form=form,
                 W=rng.choice([None, None, None, 1, L_, L_ + 1, 40]), cb=cb, script=script, timeout=rng.choice([-1, 30, 1, None, 0.5]),
-                wx=rng.random() < 0.3, exit=rng.choice([0, 1, 3, 255, None]))
+                wx=rng.random() < 0.3, exit=rng.choice([0, 1, 3, 255, None]),
+                **({'eager': True} if rng.random() < 0.35 else {}))       # the last read met the hang-up too (a child that printed and exited)
 
 
 def shrink(case, bad):
